@@ -58,6 +58,7 @@ theorem C08_connection_whole_packets (c : WConn) (ps : List (List Bytes)) :
     | timeout => exact ⟨q, by simp [h1], by simp, by simp, fun _ => ⟨v, by simp, h2⟩⟩
     | hard => exact ⟨q, by simp [h1], by simp, by simp, fun _ => ⟨v, by simp, h2⟩⟩
     | closed => exact ⟨q, by simp [h1], by simp, by simp, fun _ => ⟨v, by simp, h2⟩⟩
+    | gate => exact ⟨q, by simp [h1], by simp, by simp, fun _ => ⟨v, by simp, h2⟩⟩
 
 /-! ## Non-vacuity: a vectored write with a progress-making expiry in the header -/
 example : (writeBuffersTo { policy := [⟨3, .timeout⟩] } [[1, 2, 3, 4, 5, 6], [7, 8, 9]]).1.log = [1, 2, 3, 4, 5, 6, 7, 8, 9] ∧
